@@ -26,20 +26,28 @@ import (
 	"net/http/httptest"
 	"os"
 	"path"
+	"reflect"
+	"regexp"
 	"sort"
 	"strings"
+	"sync"
 	"time"
 
 	"github.com/golang-jwt/jwt/v4"
 	"github.com/zeromicro/go-zero/core/logx"
 	"github.com/zeromicro/go-zero/rest"
 	"github.com/zeromicro/go-zero/rest/chain"
+	"github.com/zeromicro/go-zero/rest/httpx"
 	"github.com/zeromicro/go-zero/rest/pathvar"
 	"github.com/zeromicro/go-zero/rest/router"
 	"verifh/hx"
 )
 
 const jwtSecret = "c09-secret-0123456789"
+
+// the route timeout of mounts with the "shorttimeout" option: a request whose handler is parked
+// ("hold") is answered 503 by rest's timeout middleware after this long, the handler goes on
+const shortTimeout = 100 * time.Millisecond
 
 type Case struct {
 	ID   int         `json:"id"`
@@ -97,7 +105,12 @@ type Res struct {
 	Path   string      `json:"path"` // r.URL.Path as the server sees it
 	Clean  string      `json:"clean"`
 	MWs    []int       `json:"mws"` // middleware tags seen by the handler, outermost first
-	Note   string      `json:"note,omitempty"`
+	// every further read of the path variables of THIS request: by the handler after its gate opened
+	// (held past the route timeout / concurrent batch), and after all later requests of the case were
+	// served: the map the handler kept, pathvar.Vars(r) again, httpx.ParsePath(r, ..)
+	Late [][][2]string `json:"late"`
+	Held bool          `json:"held,omitempty"` // the timeout middleware answered 503 while the handler was parked
+	Note string        `json:"note,omitempty"`
 }
 
 type Out struct {
@@ -147,34 +160,120 @@ func regErr(err error) int {
 	return 4
 }
 
-type state struct {
-	runs   []ran
-	custom string
+// reqCtl travels with one request (context value): what happened to THAT request.
+type reqCtl struct {
+	mu      sync.Mutex
+	runs    []ran
+	custom  string
+	req     *http.Request     // the request as the handler got it
+	ref     map[string]string // the very map pathvar.Vars returned to the handler
+	late    [][][2]string
+	gate    chan struct{} // the handler parks here after its first read (nil: does not park)
+	entered chan struct{} // closed when the handler has done its first read
+	done    chan struct{} // closed when the handler returns
+}
+
+type ctlKey struct{}
+
+type state struct{}
+
+func sortedVars(m map[string]string) [][2]string {
+	out := [][2]string{}
+	for k, v := range m {
+		out = append(out, [2]string{k, v})
+	}
+	sort.Slice(out, func(a, b int) bool { return out[a][0] < out[b][0] })
+	return out
+}
+
+func ctlOf(r *http.Request) *reqCtl {
+	c, _ := r.Context().Value(ctlKey{}).(*reqCtl)
+	if c == nil {
+		c = &reqCtl{} // cannot happen: every request is sent with a control block
+	}
+	return c
 }
 
 func (st *state) handler(i int) http.HandlerFunc {
 	return func(w http.ResponseWriter, r *http.Request) {
+		c := ctlOf(r)
+		ref := pathvar.Vars(r)
 		vars := map[string]string{}
-		for k, v := range pathvar.Vars(r) {
+		for k, v := range ref {
 			vars[k] = v
 		}
 		mws, _ := r.Context().Value(mwKey{}).([]int)
-		st.runs = append(st.runs, ran{h: i, vars: vars, mws: mws})
+		c.mu.Lock()
+		c.runs = append(c.runs, ran{h: i, vars: vars, mws: mws})
+		first := len(c.runs) == 1
+		if first {
+			c.req, c.ref = r, ref
+		}
+		c.mu.Unlock()
+		if !first {
+			return
+		}
+		defer close(c.done)
+		close(c.entered)
+		if c.gate != nil {
+			<-c.gate
+			// the handler comes back from its slow call and looks at its path variables again
+			again := sortedVars(pathvar.Vars(r))
+			c.mu.Lock()
+			c.late = append(c.late, again)
+			c.mu.Unlock()
+		}
 	}
 }
 
 func (st *state) notFound() http.Handler {
 	return http.HandlerFunc(func(w http.ResponseWriter, r *http.Request) {
-		st.custom += "nf"
+		c := ctlOf(r)
+		c.mu.Lock()
+		c.custom += "nf"
+		c.mu.Unlock()
 		w.WriteHeader(http.StatusNotFound)
 	})
 }
 
 func (st *state) notAllowed() http.Handler {
 	return http.HandlerFunc(func(w http.ResponseWriter, r *http.Request) {
-		st.custom += "na"
+		c := ctlOf(r)
+		c.mu.Lock()
+		c.custom += "na"
+		c.mu.Unlock()
 		w.WriteHeader(http.StatusMethodNotAllowed)
 	})
+}
+
+var simpleName = regexp.MustCompile(`^[a-z][a-z0-9]*$`)
+
+// parsePath reads the variables the way generated handlers do: httpx.ParsePath into a struct
+// with one `path:"name"` field per expected name.
+func parsePath(r *http.Request, names []string) ([][2]string, bool) {
+	if len(names) == 0 {
+		return nil, false
+	}
+	fields := make([]reflect.StructField, 0, len(names))
+	for i, n := range names {
+		if !simpleName.MatchString(n) {
+			return nil, false
+		}
+		fields = append(fields, reflect.StructField{
+			Name: fmt.Sprintf("F%d", i), Type: reflect.TypeOf(""),
+			Tag: reflect.StructTag(fmt.Sprintf(`path:"%s"`, n)),
+		})
+	}
+	v := reflect.New(reflect.StructOf(fields))
+	if err := httpx.ParsePath(r, v.Interface()); err != nil {
+		return [][2]string{{"<ParsePath error>", err.Error()}}, true
+	}
+	out := [][2]string{}
+	for i, n := range names {
+		out = append(out, [2]string{n, v.Elem().Field(i).String()})
+	}
+	sort.Slice(out, func(a, b int) bool { return out[a][0] < out[b][0] })
+	return out, true
 }
 
 func newServer(c ServerCfg, st *state) (*rest.Server, error) {
@@ -250,6 +349,8 @@ func routeOpts(ev Event) []rest.RouteOption {
 			ro = append(ro, rest.WithPrefix(o[1]))
 		case "timeout":
 			ro = append(ro, rest.WithTimeout(3*time.Second))
+		case "shorttimeout":
+			ro = append(ro, rest.WithTimeout(shortTimeout))
 		case "maxbytes":
 			ro = append(ro, rest.WithMaxBytes(1<<20))
 		case "priority":
@@ -473,70 +574,99 @@ func runCase(c Case, token string) (out Out) {
 			out.PClean = append(out.PClean, path.Clean(rg[1]))
 		}
 	}
-	for _, rq := range c.Reqs {
-		si := 0
+	type flight struct {
+		rq       []string
+		si       int
+		ctl      *reqCtl
+		w        *httptest.ResponseRecorder
+		res      Res
+		skip     bool
+		panicked bool
+		returned chan struct{}
+	}
+	prepare := func(rq []string, gate chan struct{}) *flight {
+		f := &flight{returned: make(chan struct{})}
 		if server {
-			fmt.Sscanf(rq[0], "%d", &si)
+			fmt.Sscanf(rq[0], "%d", &f.si)
 			rq = rq[1:]
 		}
+		f.rq = rq
 		mode := "path"
 		if len(rq) > 2 {
 			mode = rq[2]
 		}
-		st.runs = nil
-		st.custom = ""
-		res := Res{Vars: [][2]string{}, Allow: []string{}, MWs: []int{}}
-		rt := handlers[si]
-		if rt == nil {
-			res.K = "down" // this server did not start
-			out.Res = append(out.Res, res)
-			continue
+		f.res = Res{Vars: [][2]string{}, Allow: []string{}, MWs: []int{}, Late: [][][2]string{}}
+		if handlers[f.si] == nil {
+			f.res.K = "down" // this server did not start
+			f.skip = true
+			return f
 		}
 		req, err := makeRequest(rq[0], rq[1], mode)
 		if err != nil {
-			res.K = "badreq"
-			res.Note = err.Error()
-			out.Res = append(out.Res, res)
-			continue
+			f.res.K = "badreq"
+			f.res.Note = err.Error()
+			f.skip = true
+			return f
 		}
 		if server {
 			req.Header.Set("Authorization", "Bearer "+token)
 			req.Header.Set("Origin", "http://c09.example")
 		}
-		res.Path = req.URL.Path
-		res.Clean = path.Clean(req.URL.Path)
-		w := httptest.NewRecorder()
-		panicked := false
-		func() {
-			defer func() {
-				if p := recover(); p != nil {
-					panicked = true
-					res.Note = fmt.Sprint(p)
-				}
-			}()
-			rt.ServeHTTP(w, req)
+		f.res.Path = req.URL.Path
+		f.res.Clean = path.Clean(req.URL.Path)
+		f.ctl = &reqCtl{gate: gate, entered: make(chan struct{}), done: make(chan struct{})}
+		f.ctl.req = req.WithContext(context.WithValue(req.Context(), ctlKey{}, f.ctl))
+		f.w = httptest.NewRecorder()
+		return f
+	}
+	serve := func(f *flight) {
+		defer close(f.returned)
+		defer func() {
+			if p := recover(); p != nil {
+				f.panicked = true
+				f.res.Note = fmt.Sprint(p)
+			}
 		}()
+		req := f.ctl.req
+		f.ctl.req = nil
+		handlers[f.si].ServeHTTP(f.w, req)
+	}
+	classify := func(f *flight) {
+		if f.skip {
+			return
+		}
+		res, w := &f.res, f.w
 		res.Status = w.Code
 		allow, hasAllow := w.Header()["Allow"]
-		runs, custom := st.runs, st.custom
+		if server && c.Servers[f.si].Native && w.Code == http.StatusServiceUnavailable {
+			// the timeout middleware answered; on a busy machine the handler goroutine it started may
+			// not even have been scheduled yet
+			select {
+			case <-f.ctl.entered:
+			case <-time.After(3 * time.Second):
+			}
+		}
+		f.ctl.mu.Lock()
+		runs, custom := f.ctl.runs, f.ctl.custom
+		f.ctl.mu.Unlock()
 		_, cors := w.Header()["Access-Control-Allow-Origin"]
-		wantCors := server && c.Servers[si].Cors
+		wantCors := server && c.Servers[f.si].Cors
+		// with the timeout middleware in the chain a dispatched request may be answered 503 when the
+		// route timeout fires before the handler returns: the handler ran all the same
+		timedOut := server && c.Servers[f.si].Native && w.Code == http.StatusServiceUnavailable
 		switch {
-		case panicked:
+		case f.panicked:
 			res.K = "panic"
 		case cors != wantCors:
 			res.K = "other"
 			res.Note = "CORS headers do not match the option"
 		case len(runs) == 0 && custom == "" && cors && w.Code == 204 && !hasAllow:
 			res.K = "cors204"
-		case len(runs) == 1 && custom == "" && !hasAllow && w.Code == 200:
+		case len(runs) == 1 && custom == "" && !hasAllow && (w.Code == 200 || timedOut):
 			res.K = "h"
 			res.H = runs[0].h
 			res.MWs = append(res.MWs, runs[0].mws...)
-			for k, v := range runs[0].vars {
-				res.Vars = append(res.Vars, [2]string{k, v})
-			}
-			sort.Slice(res.Vars, func(a, b int) bool { return res.Vars[a][0] < res.Vars[b][0] })
+			res.Vars = sortedVars(runs[0].vars)
 		case len(runs) == 0 && custom == "nf" && w.Code == 404 && !hasAllow:
 			res.K = "nfc"
 		case len(runs) == 0 && custom == "na" && w.Code == 405 && !hasAllow:
@@ -554,7 +684,121 @@ func runCase(c Case, token string) (out Out) {
 			res.K = "other"
 			res.Note = fmt.Sprintf("runs=%d custom=%q status=%d allow=%v", len(runs), custom, w.Code, allow)
 		}
-		out.Res = append(out.Res, res)
+	}
+	flagOf := func(rq []string) string {
+		n := 3
+		if server {
+			n = 4
+		}
+		if len(rq) > n {
+			return rq[n]
+		}
+		return ""
+	}
+	var flights []*flight
+	var parked []*flight // handlers still parked although their request has been answered
+	for i := 0; i < len(c.Reqs); i++ {
+		flag := flagOf(c.Reqs[i])
+		switch {
+		case strings.HasPrefix(flag, "c"):
+			// a batch of concurrent requests: every handler reads its variables, waits until all
+			// requests of the batch are inside their handler (or answered), and reads them again
+			gate := make(chan struct{})
+			var batch []*flight
+			for i < len(c.Reqs) && flagOf(c.Reqs[i]) == flag {
+				batch = append(batch, prepare(c.Reqs[i], gate))
+				i++
+			}
+			i--
+			for _, f := range batch {
+				if !f.skip {
+					go serve(f)
+				}
+			}
+			for _, f := range batch {
+				if !f.skip {
+					select {
+					case <-f.ctl.entered:
+					case <-f.returned:
+					}
+				}
+			}
+			close(gate)
+			for _, f := range batch {
+				if !f.skip {
+					<-f.returned
+				}
+				classify(f)
+			}
+			flights = append(flights, batch...)
+		case flag == "hold":
+			// the handler parks after its first read; rest's timeout middleware answers for it
+			f := prepare(c.Reqs[i], make(chan struct{}))
+			if !f.skip {
+				go serve(f)
+				select {
+				case <-f.returned:
+				case <-time.After(10 * shortTimeout):
+					// nothing answers on behalf of a parked handler here: let it go
+					close(f.ctl.gate)
+					<-f.returned
+				}
+				select {
+				case <-f.ctl.entered:
+					select {
+					case <-f.ctl.done:
+					default:
+						f.res.Held = true
+						parked = append(parked, f)
+					}
+				default:
+					close(f.ctl.gate) // never dispatched: nobody waits
+				}
+				classify(f)
+			}
+			flights = append(flights, f)
+		default:
+			f := prepare(c.Reqs[i], nil)
+			if !f.skip {
+				serve(f)
+				classify(f)
+			}
+			flights = append(flights, f)
+		}
+	}
+	// the slow handlers come back
+	for _, f := range parked {
+		close(f.ctl.gate)
+		select {
+		case <-f.ctl.done:
+		case <-time.After(10 * time.Second):
+			f.res.K = "other"
+			f.res.Note = "parked handler did not finish"
+		}
+	}
+	// after everything else was served: what do the variables of each dispatched request look like now
+	for _, f := range flights {
+		if f.skip || f.res.K != "h" {
+			out.Res = append(out.Res, f.res)
+			continue
+		}
+		f.ctl.mu.Lock()
+		late := append([][][2]string{}, f.ctl.late...)
+		r, ref := f.ctl.req, f.ctl.ref
+		f.ctl.mu.Unlock()
+		late = append(late, sortedVars(ref))
+		if r != nil {
+			late = append(late, sortedVars(pathvar.Vars(r)))
+			names := []string{}
+			for _, kv := range f.res.Vars {
+				names = append(names, kv[0])
+			}
+			if parsed, ok := parsePath(r, names); ok {
+				late = append(late, parsed)
+			}
+		}
+		f.res.Late = late
+		out.Res = append(out.Res, f.res)
 	}
 	return out
 }
